@@ -840,7 +840,8 @@ func (s *flattenSlicesStream[T]) Close() { s.inner.Close() }
 // Join returns a Stream that yields all elements from streams[0], then all elements from
 // streams[1], and so on.
 func Join[T any](streams ...Stream[T]) Stream[T] {
-	return &joinStream[T]{remaining: streams}
+	// The argument list belongs to the caller, who may reuse it once Join has returned.
+	return &joinStream[T]{remaining: append([]Stream[T](nil), streams...)}
 }
 
 type joinStream[T any] struct {
@@ -900,6 +901,9 @@ func (s *mapStream[T, U]) Close() {
 // Merge merges the in streams, returning a stream that yields all elements from all of them as they
 // arrive.
 func Merge[T any](in ...Stream[T]) Stream[T] {
+	// The argument list belongs to the caller, who may reuse it once Merge has returned, while the
+	// goroutines below keep reading from it.
+	in = append([]Stream[T](nil), in...)
 	sender, receiver := Pipe[T](0)
 	nDone := uint32(0)
 	closeOnce := uint32(0)
